@@ -306,6 +306,10 @@ var sampleTime = time.Unix(1700000000, 0)
 func sampleAttribute(k int) kmip.Attribute {
 	switch k % 4 {
 	case 0:
+		if k%8 == 0 {
+			zero := int32(0) // an explicit index 0 is an element of the message like any other
+			return kmip.Attribute{AttributeName: kmip.AttributeNameState, AttributeIndex: &zero, AttributeValue: kmip.StateActive}
+		}
 		return kmip.Attribute{AttributeName: kmip.AttributeNameState, AttributeValue: kmip.StateActive}
 	case 1:
 		idx := int32(1)
